@@ -94,6 +94,20 @@ Proof.
   - unfold snooze_ok. rewrite Hf. reflexivity.
 Qed.
 
+(* applying the local zone: with a zoneinfo zone the wall clock is kept *)
+Lemma localize_keeps_wall : forall o L s, zfix L = None ->
+  localize o (Some L) (Naive s) = SOk (Zoned L s).
+Proof. intros o L s H. simpl. rewrite H. reflexivity. Qed.
+
+(* with a pytz zone object (fixed offset of its first period, LMT) normalize() moves the wall clock *)
+Lemma localize_pytz_refuted : exists o L s t,
+  localize o (Some L) (Naive s) = SOk t /\ wall t <> s.
+Proof.
+  exists {| off_wall := fun _ _ => 3600; off_utc := fun _ _ => 3600 |}, {| zid := 1; zfix := Some 3180 |}, 36000,
+         (Zoned {| zid := 1; zfix := Some 3600 |} 36420).
+  split; [reflexivity|]. simpl. discriminate.
+Qed.
+
 (* ------------------------------------------------------------------ active is a sub-list *)
 Lemma filter_sres_sublist : forall A (f : A -> sres bool) l ys,
   filter_sres f l = SOk ys -> sublist ys l.
